@@ -822,7 +822,14 @@ class CSemantics:
         """Process a character literal"""
         # Get value from string:
         char_value, kind = utils.charval(value)
-        typ = self.get_type(kind)
+        if not value.startswith("L"):
+            # The value is that of an object of type char (which is a
+            # signed type here) converted to int: '\377' is -1.
+            char_typ = self.get_type(kind)
+            if char_typ.is_signed and 0x80 <= char_value <= 0xFF:
+                char_value -= 0x100
+        # A character constant has type int (C99 6.4.4.4)
+        typ = self.int_type
         return expressions.CharLiteral(char_value, typ, location)
 
     def on_ternop(self, lhs, op, mid, rhs, location):
